@@ -39,6 +39,8 @@ class AppCli(_Rec, vcommand.VNCDoCLIClient):
 
     def _captureSave(self, data, fp, *args, **kw):
         r = super()._captureSave(data, fp, *args, **kw)
+        if isinstance(r, defer.Deferred):
+            return r            # nothing was saved: the capture waits for the next update
         im = Image.open(fp).convert("RGB")
         self._t("save:%s:%d:%d:%d" % (fp.encode().hex(), im.size[0], im.size[1], fnv64(im.tobytes())))
         return r
